@@ -1418,7 +1418,7 @@ def run(ck: core.Check):
         vd = var_dunders.generate()
         base_ = _json.loads((Path(__file__).resolve().parent.parent / "c17_source_baseline.json").read_text())["digests"]
         changed_ = sorted(k for k in set(base_) | set(vd["digests"]) if base_.get(k) != vd["digests"].get(k))
-        boost = bool(changed_)
+        boost = bool(changed_) and not os.environ.get("VERIF_NO_ESCALATE")
         ck.cov["operator_wiring"] = {"dunders": len(vd["wires"]), "opaque": [w[0] for w in vd["wires"] if w[1] == "opaque"],
                                      "changed_since_baseline": changed_}
         if boost:
